@@ -22,6 +22,8 @@ use crate::program::Exprs;
 use crate::span::SpanManager;
 
 mod c06;
+mod c07;
+mod radix;
 
 pub(self) fn bare_program<'p>(arena: &'p Arena) -> Program<'p> {
     let str_interner = StrInterner::new();
